@@ -125,6 +125,8 @@ def run_proofreader_options(tex, language, disable, enable,
 
             for m in matches:
                 m['offset'] = json_get(m, 'offset', int) + len(plain_tot)
+                # NB: is used by utils.map_match_position()
+                json_get(m, 'length', int)
             matches_tot += matches
             plain_tot += plain
             charmap_tot += charmap
